@@ -355,7 +355,9 @@ def blur_mask(arr: numpy.ndarray, size: int = 1) -> numpy.ndarray:
     # For each cell in the original mask shape,
     # the blurred mask is true if the original mask was true,
     # or any cells in a `size` sized slice around the original cell.
-    arr_iter = numpy.nditer(arr, ['multi_index'])
+    # Iterate in C order whatever the memory layout of the array is,
+    # as the values are collected in a flat array and reshaped at the end.
+    arr_iter = numpy.nditer(arr, ['multi_index'], order='C')
     indexes = (arr_iter.multi_index for _ in arr_iter)
     values = (
         arr[index] or numpy.any(padded[tuple(slice(i, i + size * 2 + 1) for i in index)])
